@@ -122,6 +122,27 @@ theorem param_mem_unit (hs : 0 < scale) {x : ℝ} (hx : x ∈ Icc (0:ℝ) 1) :
   · rw [← param_zero loc (scale := scale)]; exact param_mono loc hs hx.1
   · rw [← param_one loc hs]; exact param_mono loc hs hx.2
 
+/-- **every Gaussian pulse the constructor accepts** (repair D27): what `_validate_inputs` asserts before it computes the
+denominator — read from the source into `gaussianDomainOk` — is that the scale is positive (the `np.isfinite` terms hold
+of every real number), so the hypothesis `0 < scale` of the theorems above is exactly the constructor's own guard -/
+theorem domain_guard_iff (loc scale : ℝ) : gaussianDomainOk loc scale ↔ 0 < scale := by
+  unfold gaussianDomainOk; simp
+
+/-- the first sentence of C13 with the constructor's own guard as the only hypothesis: non-negative waveform integrating
+to 1, parametrisation its running integral, monotone from 0 at 0 to 1 at 1, and the denominator assertion holds -/
+theorem accepted_gaussian_is_a_pulse (loc scale : ℝ) (h : gaussianDomainOk loc scale) :
+    gaussianInputsAccepted loc scale ∧ (∀ x, 0 ≤ gaussianWaveform loc scale x) ∧
+      (∫ x in (0:ℝ)..1, gaussianWaveform loc scale x) = 1 ∧
+      (∀ x, 0 ≤ x → gaussianParam loc scale x = ∫ t in (0:ℝ)..x, gaussianWaveform loc scale t) ∧
+      Monotone (gaussianParam loc scale) ∧ gaussianParam loc scale 0 = 0 ∧ gaussianParam loc scale 1 = 1 := by
+  have hs := (domain_guard_iff loc scale).mp h
+  exact ⟨constructor_accepts loc hs, waveform_nonneg loc hs, waveform_integral_one loc hs,
+    fun x hx => param_is_running_integral loc hs hx, param_mono loc hs, param_zero loc, param_one loc hs⟩
+
+/-- a non-positive scale does not pass the guard (whatever the location) -/
+theorem degenerate_scale_fails_guard (loc scale : ℝ) (h : scale ≤ 0) : ¬ gaussianDomainOk loc scale := by
+  rw [domain_guard_iff]; exact not_lt.mpr h
+
 /-- the theorems apply to the bundled instance `gaussian_pulse = GaussianPulse(loc=0.5, scale=0.25)` -/
 theorem bundled_gaussian_scale_pos : 0 < bundledGaussianPulseScale := by
   unfold bundledGaussianPulseScale; norm_num
@@ -280,6 +301,31 @@ theorem gaussian_constructor_accepts (loc : ℝ) {scale : ℝ} (hs : 0 < scale) 
     gaussianValidateInputs typeChecks (gaussianDenominator loc scale) = .ok () := by
   rw [gaussian_validate_inputs_iff]
   exact ⟨h, by rw [gaussianDenominator_eq]; exact (Z_pos loc hs).ne'⟩
+
+open Classical in
+/-- with the guard's outcome as one more asserted check (`_validate_inputs` asserts it after the type checks and before
+the denominator): a well-typed input with `scale ≤ 0` is rejected, whatever denominator would have been computed -/
+theorem gaussian_constructor_rejects_degenerate (loc scale : ℝ) (hs : scale ≤ 0) (typeChecks : List Bool) (d : ℝ) :
+    ∃ e, gaussianValidateInputs (typeChecks ++ [decide (gaussianDomainOk loc scale)]) d = .error e := by
+  have hg : decide (gaussianDomainOk loc scale) = false := decide_eq_false (degenerate_scale_fails_guard loc scale hs)
+  cases hc : gaussianValidateInputs (typeChecks ++ [decide (gaussianDomainOk loc scale)]) d with
+  | error e => exact ⟨e, rfl⟩
+  | ok u =>
+    have := ((gaussian_validate_inputs_iff _ d).mp hc).1 _ (by simp : decide (gaussianDomainOk loc scale) ∈ typeChecks ++ [decide (gaussianDomainOk loc scale)])
+    rw [hg] at this; exact absurd this (by decide)
+
+open Classical in
+/-- and with a positive scale every assertion of the constructor holds (type checks given) -/
+theorem gaussian_constructor_accepts_guarded (loc : ℝ) {scale : ℝ} (hs : 0 < scale) (typeChecks : List Bool)
+    (h : ∀ b ∈ typeChecks, b = true) :
+    gaussianValidateInputs (typeChecks ++ [decide (gaussianDomainOk loc scale)]) (gaussianDenominator loc scale) = .ok () := by
+  rw [gaussian_validate_inputs_iff]
+  refine ⟨?_, by rw [gaussianDenominator_eq]; exact (Z_pos loc hs).ne'⟩
+  intro b hb
+  rcases List.mem_append.mp hb with hb | hb
+  · exact h b hb
+  · simp only [List.mem_singleton] at hb
+    rw [hb]; exact decide_eq_true ((domain_guard_iff loc scale).mpr hs)
 
 /-- the literal rejection clause is false: with the class constants `ε = 10⁻⁶`, `n = 10` and the exact integral
 of the waveform `f = 1`, the parametrisation that is `x` except for the value `9/10` at `x = 1/2` is accepted,
